@@ -16,7 +16,7 @@ import (
 
 // Action mirrors the Coq type `action`.
 //
-//	W path data   write a file            M path ro     mkdir (+ chmod 555)
+//	W path data   write a file            M path ro     mkdir (ro: MkdirAll + chmod 555 in one command)
 //	X path        chmod 755               C path        cd
 //	E key data    env key=data            P path keep   env PATH=$WORK/path[${:}$PATH]
 //	D id bad      register a Defer        G id neg      [!] exec helper sleep &
@@ -50,10 +50,11 @@ type File struct {
 	Escape string `json:"escape,omitempty"`
 }
 
-var reSibling = regexp.MustCompile(`^sibling:[a-z0-9]{1,20}$`)
+var reSibling = regexp.MustCompile(`^sibling:[a-z0-9]{1,20}(#[0-9]{1,3})?$`)
 
 // entryName is the name of the entry in the archive text; rundir is the scratch directory of the run.
 func (f *File) entryName(script, rundir string) string {
+	script = strings.ReplaceAll(script, "#", "n")
 	switch {
 	case f.Escape == "up":
 		return "../verif_c04_up_" + script + ".txt"
@@ -85,13 +86,43 @@ func safeWorkName(p string) bool {
 	return !strings.Contains(p, "..")
 }
 
+var reScriptName = regexp.MustCompile(`^[a-z0-9]{1,20}(#[0-9]{1,3})?$`)
+
+// uniqueNames is RunT's disambiguation of base names, as it should be: a name already taken gets the
+// first suffix #1, #2, ... that makes it unused.
+func uniqueNames(bases []string) []string {
+	taken := map[string]bool{}
+	out := make([]string, len(bases))
+	for i, b := range bases {
+		name := b
+		for k := 1; taken[name]; k++ {
+			name = b + "#" + fmt.Sprint(k)
+		}
+		taken[name] = true
+		out[i] = name
+	}
+	return out
+}
+
+func (s *Script) fileBase() string {
+	if s.Base != "" {
+		return s.Base
+	}
+	return s.Name
+}
+
 func (b *Batch) validate() error {
-	for _, s := range b.Scripts {
-		for i := 0; i < len(s.Name); i++ {
-			c := s.Name[i]
-			if !(c >= 'a' && c <= 'z' || c >= '0' && c <= '9') || len(s.Name) > 20 {
-				return fmt.Errorf("script name %q refused", s.Name)
-			}
+	bases := make([]string, len(b.Scripts))
+	for i := range b.Scripts {
+		bases[i] = b.Scripts[i].fileBase()
+	}
+	want := uniqueNames(bases)
+	for i, s := range b.Scripts {
+		if !reScriptName.MatchString(s.Name) || !reScriptName.MatchString(s.fileBase()) {
+			return fmt.Errorf("script name %q (file %q) refused", s.Name, s.fileBase())
+		}
+		if s.Name != want[i] {
+			return fmt.Errorf("script %d: name %q is not what the base names give (%q)", i, s.Name, want[i])
 		}
 		for _, f := range s.Files {
 			if f.Escape != "" {
@@ -122,7 +153,12 @@ type DeferSpec struct {
 }
 
 type Script struct {
+	// Name is the name RunT has to give the subtest and the work directory (script-<Name>); Base, when
+	// set, is the base name of the script file (several scripts of a batch may have the same one, each
+	// in its own directory, and a base name may look like a disambiguated name: foo#1): Name must then
+	// be what uniqueNames computes.
 	Name     string      `json:"name"`
+	Base     string      `json:"base,omitempty"`
 	Files    []File      `json:"files"`
 	Adds     []KV        `json:"adds,omitempty"`
 	Defers   []DeferSpec `json:"defers,omitempty"`
@@ -280,7 +316,9 @@ func (a *Action) lines() []string {
 		return []string{"wfile " + quoteArg(p) + " " + hex.EncodeToString([]byte(a.Data)) + "x"}
 	case "M":
 		if a.Flag && a.Path != "" {
-			return []string{"mkdir " + quoteArg(p), "chmod 555 " + quoteArg(p)}
+			// one line (MkdirAll, then Chmod 0555; a custom command), so that it fails as one unit
+			// under ContinueOnError just as the model's action does
+			return []string{"mkdirro " + quoteArg(p)}
 		}
 		return []string{"mkdir " + quoteArg(p)}
 	case "X":
@@ -337,8 +375,6 @@ func (a *Action) lines() []string {
 // singleLine reports whether the action may be guarded by a condition (renders as one line).
 func (a *Action) singleLine() bool {
 	switch a.Op {
-	case "M":
-		return !(a.Flag && a.Path != "")
 	case "G", "Y":
 		return false
 	}
@@ -503,12 +539,27 @@ func genBatch(r *common.RNG, canNonRoot bool) Batch {
 	for i := 0; i < n; i++ {
 		b.Scripts = append(b.Scripts, genScript(r, fmt.Sprintf("s%d", i)))
 	}
+	// now and then script files with the same base name (in different directories), preceded by one
+	// whose base name already looks like a disambiguated name
+	if n >= 3 && r.Chance(1, 4) {
+		j := r.Intn(n - 2)
+		x := fmt.Sprintf("d%d", j)
+		bases := make([]string, n)
+		for i := range b.Scripts {
+			bases[i] = b.Scripts[i].Name
+		}
+		bases[j], bases[j+1], bases[j+2] = x+"#1", x, x
+		names := uniqueNames(bases)
+		for i := range b.Scripts {
+			b.Scripts[i].Name, b.Scripts[i].Base = names[i], bases[i]
+		}
+	}
 	// now and then an archive entry whose name leaves the work directory
 	for i := range b.Scripts {
 		if r.Chance(1, 10) {
 			kind := common.Pick(r, []string{"up", "abs", "home", "sibling"})
 			if kind == "sibling" {
-				kind = fmt.Sprintf("sibling:s%d", (i+1+r.Intn(n-1))%n)
+				kind = "sibling:" + b.Scripts[(i+1+r.Intn(n-1))%n].Name
 			}
 			f := File{Escape: kind, Data: "escaping\n"}
 			at := r.Intn(len(b.Scripts[i].Files) + 1)
